@@ -79,9 +79,14 @@ def transparency(obl, unit, s, oc, fr, props=('C04',)):
         obl.append(Obl('%s/%s/exit/must_return_or_raise' % (P, unit), P, s, z3.BoolVal(False), oc))
 
 
-def finish(ex, paths, obl, info, extra_units=()):
-    # obligations emitted by the executor itself (loop invariants ...) belong to the unit's properties
-    return [info] + list(extra_units), obl, {'paths': len(paths), 'forks': ex.forks}
+def finish(ex, paths, obl, info, extra_units=(), fr=None):
+    mv = {}
+    for k, v in (fr or {}).items():
+        if k in ('self', 'args', 'kwargs', 'func'):
+            continue
+        mv[k] = v
+        mv[k + '.callable'] = z3.And(Val.is_ref(v), lib.CALLABLE(v))
+    return [info] + list(extra_units), obl, {'paths': len(paths), 'forks': ex.forks, 'model_vars': mv}
 
 
 def norm(paths):
@@ -211,7 +216,7 @@ def w_in_playback(props=None, case=None):
                 from_sub = [oc[1] == t['outcome'][1] for t in sub_calls if t['outcome'][0] == 'raise']
                 cl = z3.Or(z3.And(subst == NONE, TYP(Val.addr(oc[1])) == K('RecordingKeyError')), *from_sub)
                 obl.append(Obl('C02/%s/missing/key_error_only_if_no_substitute' % U, 'C02', s, cl, oc))
-    return finish(ex, paths, obl, info)
+    return finish(ex, paths, obl, info, fr=fr)
 
 
 # ------------------------------------------------------------------ W_in, recording mode (C04, C05, C01 record step, C09)
@@ -251,7 +256,7 @@ def w_in_recording(props=None, case=None):
             al = Val.s(FA(fr['alias'], res[0]['outcome'][1])) if res else fr['alias']
             key = Val.s(KF(al, fr['capture_args'], fr['static_function'], old['seq'][Val.addr(fr['args'])], old['ddom'][ka], old['dmap'][ka]))
             obl.append(Obl('C01/%s/record/key_is_K_of_alias_and_arguments' % U, 'C01', s, ev[2] == key, oc))
-    return finish(ex, paths, obl, info)
+    return finish(ex, paths, obl, info, fr=fr)
 
 
 # ------------------------------------------------------------------ W_out (C02, C03, C04, C05, C09)
@@ -351,7 +356,7 @@ def w_out(mode='playback', props=None, case=None):
                         cl = z3.And(s.dhas(env, S('exception')), s.dget(env, S('exception')) == out[1])
                     obl.append(Obl('C01/%s/record/result_envelope' % U, 'C01', s, cl, oc))
             obl.append(Obl('C05/%s/at_most_two_entries_written' % U, 'C05', s, z3.BoolVal(len(writes) <= 2), oc))
-    return finish(ex, paths, obl, info)
+    return finish(ex, paths, obl, info, fr=fr)
 
 
 # ------------------------------------------------------------------ W_op: the operation wrapper with start_recording desugared into it
@@ -469,7 +474,7 @@ def w_op_recording(props=None, case=None):
             a0 = s.g['old']['seq'][Val.addr(fr['args'])][0]
             opc = z3.If(Val.bv(fr['class_function']), a0, Val.cls(TYP(Val.addr(a0))))
             obl.append(Obl('C18/%s/operation_class' % U, 'C18', s, m[key('OPERATION_CLASS')] == opc, oc))
-    return finish(ex, paths, obl, info)
+    return finish(ex, paths, obl, info, fr=fr)
 
 
 def w_op_passthrough(mode='disabled', props=None):
@@ -481,7 +486,7 @@ def w_op_passthrough(mode='disabled', props=None):
         transparency(obl, U, s, oc, fr)
         obl.append(Obl('C04/%s/no_cassette_events' % U, 'C04', s, no_cassette_events(s), oc))
         obl.append(Obl('C04/%s/no_hooks_called' % U, 'C04', s, z3.BoolVal(not hooks(s)), oc))
-    return finish(ex, paths, obl, info)
+    return finish(ex, paths, obl, info, fr=fr)
 
 
 def w_op_playback(props=None):
@@ -521,7 +526,7 @@ def w_op_playback(props=None):
                                z3.If(ordinary, TYP(Val.addr(oc[1])) == K('OperationExceptionDuringPlayback'), oc[1] == out[1]), oc))
             else:
                 obl.append(Obl('C02/%s/exception_not_swallowed' % U, 'C02', s, z3.BoolVal(False), oc))
-    return finish(ex, paths, obl, info)
+    return finish(ex, paths, obl, info, fr=fr)
 
 
 # ------------------------------------------------------------------ play
@@ -563,4 +568,4 @@ def play(props=None):
             obl.append(Obl('C01/%s/other_exceptions_propagate' % U, 'C01', s,
                            z3.Or(z3.And(z3.BoolVal(out[0] == 'raise'), oc[1] == out[1]) if out[0] == 'raise' else z3.BoolVal(False),
                                  TYP(Val.addr(oc[1])) == K('KeyError'), TYP(Val.addr(oc[1])) == K('RecordingKeyError')), oc))
-    return finish(ex, paths, obl, info)
+    return finish(ex, paths, obl, info, fr=fr)
